@@ -334,6 +334,13 @@ def driveLocks (toks : List String) : String :=
     let missing := Locks.programEdges.filter (fun e => !seen.contains (name e.1 ++ ">" ++ name e.2))
     if missing.isEmpty then "R ok"
     else "R nesting-of-the-model-not-observed " ++ ",".intercalate (missing.map (fun e => name e.1 ++ ">" ++ name e.2))
+  | ["tries", observed] =>
+    if observed == "-" then "R ok"
+    else
+      let bad := (observed.splitOn ",").filter (fun n => match Locks.Cls.ofName? n with
+        | some c => !Locks.tryAcquired.contains c
+        | none => true)
+      if bad.isEmpty then "R ok" else "R non-blocking-acquisition-not-in-the-model " ++ ",".intercalate bad
   | _ => "R bad-locks-line"
 
 -- ---------- Layer B, lines `BC <cfg> clients=n` and `B <action> [oracle]` ----------
